@@ -41,7 +41,7 @@ def block(path, body):
     return "".join("namespace %s { " % p for p in path) + body + " }" * len(path)
 
 
-def build(code_a, code_b, layout, nenum, cls_enum, fshape, ignore_which):
+def build(code_a, code_b, layout, nenum, cls_enum, fshape, ignore_which, ser=(0, 0)):
     """returns (text, expectation dict)"""
     (p0, _), (p1, _) = LAYOUTS[layout]
     a = ms.decode_class(code_a, 0, None)
@@ -53,11 +53,12 @@ def build(code_a, code_b, layout, nenum, cls_enum, fshape, ignore_which):
             d["base"] = 0
     a["enums"] = [("Kind", ["K1", "K2", "K3"])] if cls_enum else []
     b["enums"] = []
+    a["serialize"], b["serialize"] = bool(ser[0]), bool(ser[1])
     funcs = ms.FUNC_SHAPES[fshape]
     enums = ENUMS[nenum]
 
     def cls_text(d):
-        t = ms.render_class(d, False)
+        t = ms.render_class(d, d["serialize"])
         if d["enums"]:
             t = t.replace("{ ", "{ " + " ".join("enum %s { %s };" % (n, ", ".join(v)) for n, v in d["enums"]) + " ", 1)
         return t
@@ -78,7 +79,7 @@ def pkg(path):
     return "".join("+%s/" % p for p in path)
 
 
-def check_census(text, exp, files, cpp, via):
+def check_census(text, exp, files, cpp, via, boost=False):
     problems = []
     want = {"+ns/Other.m", "+ext/Root.m", "mod_wrapper.cpp"}
     for d, ignored in exp["classes"]:
@@ -122,11 +123,18 @@ def check_census(text, exp, files, cpp, via):
             problems.append("%s: pointer property ptr_%s missing" % (key, flat))
         if m.count("function obj = %s(varargin)" % d["name"]) != 1 or m.count("function delete(obj)") != 1:
             problems.append("%s: constructor / delete missing or duplicated" % key)
-        mnames = list(dict.fromkeys(x[1] for x in d["methods"]))
+        ser = bool(d.get("serialize")) and boost
+        mnames = list(dict.fromkeys(x[1] for x in d["methods"])) + (["string_serialize"] if ser else [])
         got_m = re.findall(r"function varargout = (\w+)\(this, varargin\)", m)
         if sorted(got_m) != sorted(mnames):
             problems.append("%s: methods %r, declared %r" % (key, got_m, mnames))
-        snames = list(dict.fromkeys(x[1] for x in d["statics"]))
+        snames = list(dict.fromkeys(x[1] for x in d["statics"])) + (["string_deserialize"] if ser else [])
+        for fn, role in (("function sobj = saveobj(obj)", "_string_serialize_"), ("function obj = loadobj(sobj)", "_string_deserialize_")):
+            if m.count(fn) != int(ser):
+                problems.append("%s: %r appears %d times, serializable=%s" % (key, fn, m.count(fn), ser))
+            n = len(re.findall(r"^void %s%s\d+\(" % (flat, role), cpp, re.M))
+            if n != int(ser):
+                problems.append("class %s: %d MEX %s routines, serializable=%s" % (cppname, n, role.strip("_"), ser))
         stat = m[m.index("methods(Static = true)"):] if "methods(Static = true)" in m else ""
         got_s = re.findall(r"function varargout = (\w+)\(varargin\)", stat)
         if sorted(got_s) != sorted(snames):
@@ -146,19 +154,19 @@ def check_census(text, exp, files, cpp, via):
     return problems
 
 
-def check(code_a, code_b, layout, nenum, cls_enum, fshape, ignore_which):
-    text, exp = build(code_a, code_b, layout, nenum, cls_enum, fshape, ignore_which)
-    files, cpp, w = pipe.matlab(text, ignore=exp["ignore"] or [""])
-    problems = check_census(text, exp, files, cpp, "content tree")
+def check(code_a, code_b, layout, nenum, cls_enum, fshape, ignore_which, ser=(0, 0), boost=False):
+    text, exp = build(code_a, code_b, layout, nenum, cls_enum, fshape, ignore_which, ser)
+    files, cpp, w = pipe.matlab(text, ignore=exp["ignore"] or [""], boost=boost)
+    problems = check_census(text, exp, files, cpp, "content tree", boost)
     # second reading: through the real generate_content on the recorder file system (path assembly)
     with patched_io() as rec:
-        w2 = pipe.new_matlab_wrapper(ignore=exp["ignore"] or [""])
+        w2 = pipe.new_matlab_wrapper(ignore=exp["ignore"] or [""], boost=boost)
         module = instantiator.instantiate_namespace(parser.Module.parseString(text))
         w2.wrap_namespace(module)
         w2.generate_wrapper(module)
         w2.generate_content(w2.content, "tb")
         disk = {k[len("tb/"):]: v for k, v in rec.written.items()}
-    problems += check_census(text, exp, disk, disk.get("mod_wrapper.cpp", ""), "written files")
+    problems += check_census(text, exp, disk, disk.get("mod_wrapper.cpp", ""), "written files", boost)
     if problems:
         return _fail(text=text, problems=problems[:6])
     return True
@@ -227,12 +235,41 @@ def c10_all_classes_hi(code: int, layout: int) -> bool:
     return _all_classes(code, layout, NC // 2)
 
 
+SREPS_CODES = [6, 30, 102, 198, 126, 19, 331]      # ctor only / methods / statics only / properties only / methods+statics / virtual two ctors / everything
+SREPS = SREPS_CODES
+
+
+def c10_serialization(a: int, b: int, sa: int, sb: int, boost: int, layout: int, ign: int) -> bool:
+    """
+    Two classes in wrapping order, each with or without `void serialize() const;`, serialization switched on or off:
+    string_serialize/saveobj and the static string_deserialize/loadobj (and their MEX routines) appear exactly
+    for the serializable classes when the option is on, and nowhere otherwise — whatever class was wrapped before.
+    pre: 0 <= a < len(SREPS) and 0 <= b < len(SREPS) and 0 <= sa <= 1 and 0 <= sb <= 1 and 0 <= boost <= 1 and 0 <= layout <= 1 and 0 <= ign <= 1
+    pre: THOROUGH or (b < 4 and sa + boost >= 1)
+    post: _
+    """
+    a, b, sb = pick(a, 0, len(SREPS)), pick(b, 0, len(SREPS) if THOROUGH else 4), pick(sb, 0, 2)
+    if THOROUGH:
+        sa, boost = pick(sa, 0, 2), pick(boost, 0, 2)
+    else:                                  # quick: (sa, boost) in {(1,1), (1,0), (0,1)}
+        mode = pick(sa + 2 * boost, 1, 4)
+        sa, boost = mode % 2, mode // 2
+    layout = pick(layout, 0, 2) if THOROUGH else (a + b) % 2
+    ign = pick(ign, 0, 2) if THOROUGH else (a + sb) % 2
+    with concrete():
+        ok = check(SREPS_CODES[a], SREPS_CODES[b], 1 + 2 * layout, 0, (a + b) % 2, 0, ign, (sa, sb), bool(boost))
+    reached({"a": SREPS_CODES[a], "b": SREPS_CODES[b], "ser": (sa, sb), "boost": boost} if (not ok or (a == 1 and b == 2 and sa and boost)) else None)
+    return ok
+
+
 def conds(tier):
     q = tier == "quick"
     t = (lambda x, y: x) if q else (lambda x, y: y)
     M = "harness.c10"
     bc = "%d first classes x %s second classes x %%s%s" % (NREP, "%d representative" % len(BREPS) if q else "%d" % NREP, "" if q else " x 3 ignore choices")
     return [
+        xh.Cond(M, "c10_serialization", t(420, 1800), kind="shape-bounded", path_timeout=90, examples=["a=2, b=0, sa=1, sb=0, boost=1, layout=0, ign=0", "a=1, b=3, sa=1, sb=1, boost=0, layout=1, ign=1"],
+                bounds="%d x %d class shapes (method-less, static-only, property-only included) x serialize on either class x serialization option%s" % (len(SREPS), 4 if q else len(SREPS), " (not both off)" if q else " x 2 layouts x ignore")),
         xh.Cond(M, "c10_census_even", t(420, 3600), kind="shape-bounded", path_timeout=90, examples=["a=4, b=2, layout=1, ign=2", "a=11, b=0, layout=3, ign=0"], bounds=bc % "layouts 0,2,4,6"),
         xh.Cond(M, "c10_census_odd", t(420, 3600), kind="shape-bounded", path_timeout=90, examples=["a=4, b=2, layout=1, ign=2", "a=0, b=1, layout=2, ign=1"], bounds=bc % "layouts 1,3,5 (same-leaf namespaces, re-opened namespace)"),
         xh.Cond(M, "c10_all_classes_lo", t(420, 3600), kind="shape-bounded", path_timeout=90, examples=["code=101, layout=0"], bounds="class shapes 0-%d%s" % (NC // 2 - 1, " x 2 layouts" if not q else " (layout derived)")),
